@@ -199,44 +199,45 @@ class DebugInfo:
                                 last_child.end_offset,
                                 end_offset)
             else:
-                # there should have been an empty block marker inside.
-                marked = False
-                for addr in self.empty_blocks:
-                    if start_offset <= addr < end_offset:
-                        marked = True
-                        add_node_record(block.start_stmt,
-                                        start_offset,
-                                        addr)
-                        add_node_record(block.end_stmt,
-                                        addr,
-                                        end_offset)
+                # The body produced no code. Where it would be divides
+                # the block's code: what lies in front of that point
+                # belongs to the start statement, what lies behind it to
+                # the end statement.
+                #
+                # A body that is not empty in the source (code-less
+                # statements only, or statements the optimiser removed)
+                # left the empty records of its own statements at that
+                # point. Only statements inside this block count: an
+                # empty record of a statement in front of the block
+                # sits at the very offset of the block's first
+                # instruction.
+                def inside(node):
+                    parent = getattr(node, 'parent', None)
+                    while parent is not None:
+                        if parent is block:
+                            return True
+                        parent = getattr(parent, 'parent', None)
+                    return False
 
-                if not marked and end_offset > start_offset:
-                    # the body produced no code at all (it consists of
-                    # code-less statements only, or the optimiser
-                    # removed it). The empty records of the body's own
-                    # statements still say where the body would be:
-                    # the code in front of that point belongs to the
-                    # start statement, the code behind it to the end
-                    # statement. (Only statements that are inside this
-                    # block in the source count - an empty record of a
-                    # statement in front of the block sits at the very
-                    # same offset as the block's first instruction.)
-                    def inside(node):
-                        parent = getattr(node, 'parent', None)
-                        while parent is not None:
-                            if parent is block:
-                                return True
-                            parent = getattr(parent, 'parent', None)
-                        return False
+                body_offsets = [
+                    r.start_offset for r in self.stmts
+                    if r.start_offset == r.end_offset and
+                    start_offset <= r.start_offset <= end_offset and
+                    inside(r.node)
+                ]
+                # An empty body left an empty block marker.
+                markers = [
+                    addr for addr in self.empty_blocks
+                    if start_offset <= addr < end_offset
+                ]
+                if body_offsets:
+                    split = min(body_offsets)
+                elif markers:
+                    split = markers[0]
+                else:
+                    split = end_offset
 
-                    body_offsets = [
-                        r.start_offset for r in self.stmts
-                        if r.start_offset == r.end_offset and
-                        start_offset <= r.start_offset <= end_offset and
-                        inside(r.node)
-                    ]
-                    split = min(body_offsets) if body_offsets else end_offset
+                if end_offset > start_offset or markers:
                     add_node_record(block.start_stmt,
                                     start_offset,
                                     split)
